@@ -49,4 +49,10 @@ PROPS = {
  "C17": dict(cfgs=cfgs4,
    scope=lambda t: "breadth-first search over operation histories from S(2,1) seeds with an alphabet of ~500 operations to depth 2 (quick) / 3 (thorough), every transition compared with the exact value model, every algebraic law instance evaluated on implementation values at every stored state; three-operand laws on the complete cube",
    assumptions=COMMON_ASSUMPTIONS + ["states are de-duplicated by raw value: sound because the library is stateless, equal values have equal futures"]),
+ "C09": dict(cfgs=quick8,
+   scope=lambda t: "accuracy and range on the COMPLETE stated domain (all 823,549 raw x with |x| <= 2pi); exact periodicity on every residue of [0,2phi) x a k-set reaching every binade up to 2^62, plus S(w,r) x the same k",
+   assumptions=COMMON_ASSUMPTIONS + ["periodicity for |x| < 2^62 is covered for the listed k only (every |k| <= 64 and four k per binade), not for all ~2^43 values of k"]),
+ "C10": dict(cfgs=quick8,
+   scope=lambda t: "accuracy on the COMPLETE stated domain (all 411,775 raw x with |x| <= pi); pole, oddness and period on every residue of [0,phi) x a k-set reaching every binade up to 2^62, plus S(w,r)",
+   assumptions=COMMON_ASSUMPTIONS + ["at a pole tan(x) and tan(-x) must both be NaN; the sign of the NaN sentinel is not compared (DESIGN section 7)"]),
 }
